@@ -298,17 +298,10 @@ func (c *Ctx) ruleMultiLevelWildcardParent(id string) {
 	if !ru.Anchor(ok, "subscriptions.Node with a children map and a payload") {
 		return
 	}
-	// the recursive walk over nodes
-	var rec *ssa.Function
-	for _, f := range c.funcsDeep(walk, 2) {
-		if f.Signature.Recv() == nil || !isNode(f.Signature.Recv().Type()) {
-			continue
-		}
-		for _, cl := range core.CallsIn(f) {
-			if cl.Static == f {
-				rec = f
-			}
-		}
+	// the recursive walk over nodes (a function calling itself, or a cycle such as walk → descend → walk)
+	rec, members := c.trieWalk("subscriptions", walk)
+	if rec != nil && (rec.Signature.Recv() == nil || !isNode(rec.Signature.Recv().Type())) {
+		rec = nil
 	}
 	if !ru.Anchor(rec != nil, "the recursive node walk reached from Tree.Walk") {
 		return
@@ -323,19 +316,27 @@ func (c *Ctx) ruleMultiLevelWildcardParent(id string) {
 	if !ru.Anchor(itIdx >= 0, "the iterator parameter of the node walk") {
 		return
 	}
+	var cur *core.Path // the path being judged: helper parameters are seen through on it
+	res := func(v ssa.Value) ssa.Value {
+		v = core.Strip(v)
+		if cur != nil {
+			v = core.Strip(cur.Resolve(v))
+		}
+		return v
+	}
 	isEmit := func(cl *core.Call) bool {
-		return cl.Static == nil && !cl.Invoke && cl.Builtin() == "" && core.Strip(cl.Common.Value) == ssa.Value(rec.Params[itIdx])
+		return cl.Static == nil && !cl.Invoke && cl.Builtin() == "" && res(cl.Common.Value) == ssa.Value(rec.Params[itIdx])
 	}
 	fieldOfRecv := func(v ssa.Value, name string) bool {
-		ld, ok := core.Strip(v).(*ssa.UnOp)
+		ld, ok := res(v).(*ssa.UnOp)
 		if !ok || ld.Op != token.MUL {
 			return false
 		}
 		fa, ok := ld.X.(*ssa.FieldAddr)
-		return ok && fieldNameOf(fa.X.Type(), fa.Field) == name && core.Strip(fa.X) == ssa.Value(rec.Params[0])
+		return ok && fieldNameOf(fa.X.Type(), fa.Field) == name && res(fa.X) == ssa.Value(rec.Params[0])
 	}
 	fromWildcardChild := func(v ssa.Value) bool {
-		return depReaches(v, func(x ssa.Value) bool {
+		return depReaches(res(v), func(x ssa.Value) bool {
 			lk, ok := x.(*ssa.Lookup)
 			if !ok || !fieldOfRecv(lk.X, children) {
 				return false
@@ -344,7 +345,7 @@ func (c *Ctx) ruleMultiLevelWildcardParent(id string) {
 			return ok && k.Value != nil && k.Value.ExactString() == `"#"`
 		})
 	}
-	paths, err := core.EnumPaths(rec, core.PathOpts{})
+	paths, err := c.pathsInlinedPkg(rec, core.PathOpts{}, nil)
 	if err != nil {
 		ru.Undecided("end-of-topic paths of "+c.fname(rec), c.whereF(rec), err.Error())
 		return
@@ -357,9 +358,10 @@ func (c *Ctx) ruleMultiLevelWildcardParent(id string) {
 		}
 		own, wild, descends := false, false, false
 		var at ssa.Instruction
+		cur = p
 		for _, pc := range p.Calls() {
 			switch {
-			case pc.Static == rec:
+			case pc.Static != nil && members[pc.Static]:
 				descends = true
 			case isEmit(pc.Call) && len(pc.Common.Args) == 1:
 				if fieldOfRecv(pc.Common.Args[0], payload) {
